@@ -12,8 +12,10 @@ package main
 // joined after genesis), F-11a, F-11b, F-11f, F-11g.
 
 import (
+	"encoding/json"
 	"fmt"
 	"math/big"
+	"os"
 	"strings"
 	"time"
 
@@ -23,6 +25,7 @@ import (
 	banktypes "github.com/cosmos/cosmos-sdk/x/bank/types"
 	govv1 "github.com/cosmos/cosmos-sdk/x/gov/types/v1"
 	govv1beta1 "github.com/cosmos/cosmos-sdk/x/gov/types/v1beta1"
+	slashingtypes "github.com/cosmos/cosmos-sdk/x/slashing/types"
 	stakingtypes "github.com/cosmos/cosmos-sdk/x/staking/types"
 	"github.com/ethereum/go-ethereum/common"
 	"github.com/prysmaticlabs/prysm/v4/crypto/bls/blst"
@@ -35,6 +38,7 @@ import (
 	delegationtypes "github.com/ExocoreNetwork/exocore/x/delegation/types"
 	epochstypes "github.com/ExocoreNetwork/exocore/x/epochs/types"
 	operatortypes "github.com/ExocoreNetwork/exocore/x/operator/types"
+	oracletypes "github.com/ExocoreNetwork/exocore/x/oracle/types"
 )
 
 func init() { register("liveness", domLiveness) }
@@ -88,6 +92,10 @@ func domLiveness(env *Env) error {
 	// ---- generated: the signers of an AVS task lose all their power before the statistics epoch
 	for i := 0; i < env.Int("signerruns", 6); i++ {
 		signerLosesPowerRun(env, seed*90+uint64(i))
+	}
+	// ---- generated: an asset whose latest oracle price is not a number, then a downtime slash
+	for i := 0; i < env.Int("priceruns", 4); i++ {
+		unpricedAssetSlashRun(env, seed*110+uint64(i))
 	}
 	if env.Int("directed", 1) == 1 {
 		for _, sc := range []struct {
@@ -554,6 +562,191 @@ func signerLosesPowerRun(env *Env, seed uint64) {
 	env.DistinctKey(fmt.Sprintf("signer-%d-%d-%s", variant, len(signers), note))
 	env.Outcome(fmt.Sprintf("signer.variant=%d", variant))
 	env.Op("signer.result", fmt.Sprintf("ok variant=%d %s", variant, note))
+}
+
+// unpricedAssetSlashRun: an operator holds an asset whose LATEST oracle price string is not a decimal
+// integer, and is then slashed for downtime by x/slashing's BeginBlocker (the slash values every asset of
+// the operator through GetSpecifiedAssetsPrice -> CalculateUSDValue). Two ways to get such a price, both
+// without any misbehaviour beyond what the protocol admits:
+//
+//	variant 0: a token registered like precompiles/assets RegisterToken does (staking asset + oracle token
+//	           + feeder); its first round closes without quorum and the oracle's own EndBlock (GrowRoundID,
+//	           no previous price) appends a round with the EMPTY price;
+//	variant 1: all validators quote the same non-numeric string for an existing token (MsgCreatePrice
+//	           prices are not checked to be numeric), which reaches consensus and is stored.
+//
+// The signed-blocks window is shrunk to 10 through the slashing genesis params. Monitors: after every
+// block the two price getters never return a nil / non-positive Value together with a nil error; no halt;
+// the validator ends up jailed and three more blocks are processed.
+func unpricedAssetSlashRun(env *Env, seed uint64) {
+	rng := NewRNG(seed ^ 0x9A1CE)
+	variant := rng.Intn(2)
+	op := fmt.Sprintf("unpriced.reset seed=%d variant=%d", seed, variant)
+	hist := []string{op}
+	env.Op(op, "ok")
+	env.Report.Histories++
+	cfg := DefaultCfg(seed)
+	cfg.NOperators = 3
+	cfg.Powers = []int64{101, 100, 150}
+	cfg.Mutate = func(c *Chain, gs map[string]json.RawMessage) {
+		var sg slashingtypes.GenesisState
+		c.App.AppCodec().MustUnmarshalJSON(gs[slashingtypes.ModuleName], &sg)
+		sg.Params.SignedBlocksWindow = 10
+		gs[slashingtypes.ModuleName] = c.App.AppCodec().MustMarshalJSON(&sg)
+	}
+	c := NewChainFresh(cfg)
+	step := func(o string) { hist = append(hist, o) }
+	done := false
+	fail := func(mon, sig, what string) {
+		env.Violate(mon, sig, what, hist)
+		if !done {
+			env.Op("unpriced.result", "violation "+sig)
+			done = true
+		}
+	}
+	assetIDs := append([]string{}, c.AssetIDs...)
+	checkPrices := func(when string) {
+		for _, id := range assetIDs {
+			env.Eval("C11.price-value")
+			func() {
+				h := ""
+				defer func() {
+					if h != "" {
+						fail("C11.price-value", "oracle-price-getter-panics", when+": "+h)
+					}
+				}()
+				defer recoverTo(&h, "GetSpecifiedAssetsPrice")
+				p, err := c.App.OracleKeeper.GetSpecifiedAssetsPrice(c.Ctx, id)
+				if err == nil && (p.Value.IsNil() || !p.Value.IsPositive()) {
+					fail("C11.price-value", "oracle-price-nil-without-error", fmt.Sprintf("%s: GetSpecifiedAssetsPrice(%s) returned Value=%v with a nil error (the slash valuation multiplies by it in BeginBlock)", when, id, p.Value))
+				}
+				ps, err := c.App.OracleKeeper.GetMultipleAssetsPrices(c.Ctx, map[string]interface{}{id: nil})
+				if ps != nil {
+					if q, ok := ps[id]; ok && (q.Value.IsNil() || !q.Value.IsPositive()) {
+						fail("C11.price-value", "oracle-price-nil-in-map", fmt.Sprintf("%s: GetMultipleAssetsPrices(%s) holds Value=%v (err=%v)", when, id, q.Value, err))
+					}
+				}
+			}()
+		}
+	}
+	victim := rng.Intn(len(c.Operators))
+	blkWith := func(d time.Duration, absent bool) bool {
+		r := c.EndAndBeginWith(d, func(req *abci.RequestBeginBlock) {
+			var votes []abci.VoteInfo
+			for _, v := range c.App.StakingKeeper.GetAllExocoreValidators(c.Ctx) {
+				signed := !(absent && sdk.ConsAddress(v.Address).Equals(c.ConsKeys[victim].ToConsAddr()))
+				votes = append(votes, abci.VoteInfo{Validator: abci.Validator{Address: v.Address, Power: v.Power}, SignedLastBlock: signed})
+			}
+			req.LastCommitInfo = abci.CommitInfo{Votes: votes}
+		})
+		if r.Halt != "" {
+			fail("C11.halt", "halt:"+sigOfHalt(r.Halt), "block processing panicked (a node would stop): "+r.Halt)
+			return false
+		}
+		return true
+	}
+	staker := NewActor(seed, "unpricedstaker", 0)
+	watched := ""
+	if variant == 0 {
+		newAddr := common.BytesToAddress(detBytes(seed, "newtoken", 0))
+		_, newID := assetstypes.GetStakerIDAndAssetIDFromStr(c.LzID, "", newAddr.String())
+		amt := sdkmath.NewIntWithDecimal(int64(1+rng.Intn(50)), 6)
+		err := c.CachedDo(func(ctx sdk.Context) error {
+			if err := c.App.AssetsKeeper.SetStakingAssetInfo(ctx, &assetstypes.StakingAssetInfo{
+				AssetBasicInfo:     assetstypes.AssetInfo{Name: "New Token", Symbol: "NEWT", Address: newAddr.String(), Decimals: 6, LayerZeroChainID: c.LzID, MetaInfo: "fresh"},
+				StakingTotalAmount: sdkmath.ZeroInt()}); err != nil {
+				return err
+			}
+			oi := oracletypes.OracleInfo{AssetID: newID}
+			oi.Chain.Name = "Ethereum"
+			oi.Token.Name = "NEWT"
+			oi.Token.Decimal = "6"
+			oi.Token.Contract = newAddr.String()
+			oi.Feeder.Interval = "5"
+			if err := c.App.OracleKeeper.RegisterNewTokenAndSetTokenFeeder(ctx, &oi); err != nil {
+				return err
+			}
+			if err := c.App.AssetsKeeper.PerformDepositOrWithdraw(ctx, &assetskeeper.DepositWithdrawParams{
+				ClientChainLzID: c.LzID, Action: assetstypes.DepositLST, StakerAddress: staker.Eth.Bytes(), AssetsAddress: newAddr.Bytes(), OpAmount: amt}); err != nil {
+				return err
+			}
+			return c.App.DelegationKeeper.DelegateTo(ctx, &delegationtypes.DelegationOrUndelegationParams{
+				ClientChainID: c.LzID, Action: assetstypes.DelegateTo, AssetsAddress: newAddr.Bytes(), OperatorAddress: c.Operators[victim].Acc,
+				StakerAddress: staker.Eth.Bytes(), OpAmount: amt, LzNonce: 1, TxHash: common.BytesToHash(detBytes(seed, "unp", 0))})
+		})
+		step(fmt.Sprintf("unpriced.register new token (staking asset + oracle token + feeder interval 5), deposit %s and delegate to operator[%d]", amt, victim))
+		if err != nil {
+			env.Op("unpriced.result", "setup-rejected "+tailStr(err.Error(), 120))
+			return
+		}
+		assetIDs = append(assetIDs, newID)
+		watched = newID
+	} else {
+		// all three validators quote "abc" for feeder 1 (asset 0) in its first window (heights 2..4)
+		watched = c.AssetIDs[0]
+		if !blkWith(5*time.Second, false) {
+			return
+		}
+		bad := []string{"abc", "", "1e5", "0x10", "-5", "0"}[rng.Intn(6)]
+		for vi, priv := range c.ConsPrivs {
+			bz, err := oraclePriceTx(c, priv, priceMsg(oracleCreator(priv), 1, 1, 1, bad, 0, "1", c.Header.Time))
+			if err != nil {
+				continue
+			}
+			r, h := c.DeliverRaw(bz)
+			if h != "" {
+				fail("C11.halt", "halt:"+sigOfHalt(h), "DeliverTx panicked: "+h)
+				return
+			}
+			step(fmt.Sprintf("unpriced.delivertx oracle price %q for feeder 1 by validator %d -> code %d", bad, vi, r.Code))
+			if os.Getenv("DET_DEBUG") != "" {
+				fmt.Fprintln(os.Stderr, "DEBUG unpriced quote", bad, vi, r.Code, tailStr(r.Log, 200))
+			}
+		}
+	}
+	// until the watched token's latest price is what the variant wants (or 40 blocks)
+	latest := "<none>"
+	for i := 0; i < 40; i++ {
+		if !blkWith(5*time.Second, false) {
+			return
+		}
+		checkPrices(fmt.Sprintf("block %d", c.Header.Height))
+		tid := c.App.OracleKeeper.GetParams(c.Ctx).GetTokenIDFromAssetID(watched)
+		if p, found := c.App.OracleKeeper.GetPriceTRLatest(c.Ctx, uint64(tid)); found {
+			latest = p.Price
+			if _, ok := sdkmath.NewIntFromString(p.Price); !ok {
+				break
+			}
+		}
+		if variant == 1 && i > 6 {
+			break
+		}
+	}
+	step(fmt.Sprintf("unpriced.blocks until the latest stored price of %s is %q", watched, latest))
+	// downtime of the victim's validator
+	win := c.App.SlashingKeeper.SignedBlocksWindow(c.Ctx)
+	jailed := false
+	for i := int64(0); i < 3*win+10 && !jailed; i++ {
+		if !blkWith(5*time.Second, true) {
+			return
+		}
+		checkPrices(fmt.Sprintf("downtime block %d", c.Header.Height))
+		jailed = c.App.StakingKeeper.IsValidatorJailed(c.Ctx, c.ConsKeys[victim].ToConsAddr())
+	}
+	step(fmt.Sprintf("unpriced.blocks with validator %d absent from LastCommitInfo (window %d) -> jailed=%v", victim, win, jailed))
+	for i := 0; i < 3; i++ {
+		if !blkWith(5*time.Second, false) {
+			return
+		}
+	}
+	env.Eval("C11.halt")
+	env.Outcome(fmt.Sprintf("unpriced.variant=%d.jailed=%v", variant, jailed))
+	_, numeric := sdkmath.NewIntFromString(latest)
+	env.Outcome(fmt.Sprintf("unpriced.latest-price-numeric=%v", numeric))
+	env.DistinctKey(fmt.Sprintf("unpriced-%d-%q-%v", variant, latest, jailed))
+	if !done {
+		env.Op("unpriced.result", fmt.Sprintf("ok variant=%d latest=%q jailed=%v", variant, latest, jailed))
+	}
 }
 
 // ---------------------------------------------------------------- directed scenarios
